@@ -12,9 +12,10 @@ from pams.order import LIMIT_ORDER, MARKET_ORDER, Order  # noqa: E402
 
 RULE = ("every price of the exact domain (ticks 1/8..100 exactly representable x all k/32 up to 40 plus the neighbourhoods of grid "
         "points: adjacent floats and quarter points, incl. large grid indices) and of the decimal domain (ticks 0.1, 0.01, 0.001, "
-        "1e-5 with the same neighbourhoods), both sides, submitted to a real Market through _add_order; oracle in exact rational "
+        "1e-5 with the same neighbourhoods; int-typed ticks 1, 2, 10 and int-typed prices as JSON produces them), both sides, submitted to a real Market through _add_order; oracle in exact rational "
         "arithmetic over the float values; distinct = (tick, on/off grid, side, direction moved) classes")
-EXACT_TICKS = [0.125, 0.25, 0.5, 1.0, 2.0, 3.0, 5.0, 10.0, 100.0]
+# the last three are int-typed, as "tickSize": 1 in a JSON configuration produces them
+EXACT_TICKS = [0.125, 0.25, 0.5, 1.0, 2.0, 3.0, 5.0, 10.0, 100.0, 1, 2, 10]
 DEC_TICKS = [0.1, 0.01, 0.001, 0.00001]
 WIT = ["on_grid_unchanged", "buy_rounded_down", "sell_rounded_up", "adjacent_float_below_grid", "adjacent_float_above_grid",
        "decimal_tick_case", "market_order_untouched", "large_grid_index", "same_price_both_sides_one_market", "long_lived_market_submissions"]
@@ -33,7 +34,7 @@ def cases(tier):
     if tier != "quick":
         ks += list(range(41, 400)) + [2 ** 20, 2 ** 20 + 1, 99999999]
     for tick in EXACT_TICKS:
-        ps = neighbourhood(tick, ks) + [j / 32 for j in range(1, 1281 if tier == "quick" else 6401)]
+        ps = neighbourhood(tick, ks) + [j / 32 for j in range(1, 1281 if tier == "quick" else 6401)] + list(range(1, 42))
         for p in ps:
             for is_buy in (True, False):
                 yield (tick, True, p, is_buy)
